@@ -5,8 +5,10 @@ import (
 	"context"
 	"errors"
 	"fmt"
+	"os"
 	"runtime"
 	"sort"
+	"strconv"
 	"strings"
 	"sync/atomic"
 	"testing"
@@ -225,7 +227,13 @@ func deploymentInfo(w *world.World) []DeploymentInfo {
 func Run(t *testing.T, sp Spec) (res *Result) {
 	res = &Result{}
 	if sp.RealTimeout == 0 {
-		sp.RealTimeout = 60 * time.Second
+		// One run takes milliseconds to a few seconds; the watchdog is for a harness that got stuck, and
+		// must not fire just because the machine is overloaded (a 60 s limit did, once, under a load
+		// average of 60). VERIF_WATCHDOG_S overrides.
+		sp.RealTimeout = 300 * time.Second
+		if v, err := strconv.Atoi(os.Getenv("VERIF_WATCHDOG_S")); err == nil && v > 0 {
+			sp.RealTimeout = time.Duration(v) * time.Second
+		}
 	}
 	stopWD := simrt.Watchdog(sp.RealTimeout, func() string { return "harness.Run" })
 	defer stopWD()
